@@ -88,6 +88,8 @@ pub mod signal;
 mod trait_options;
 pub mod traits;
 pub mod transition;
+#[cfg(leptos_verif)]
+pub mod verif_hooks;
 pub mod wrappers;
 
 use computed::ScopedFuture;
